@@ -95,7 +95,7 @@ def pool_kwargs(case):
         if case.get("phdr") == "distinct":
             pkw["headers"] = [(b"X-Px", b"pxmark")]
         elif case.get("phdr") == "collide":
-            pkw["headers"] = [(b"x-shared", b"pxmark")]
+            pkw["headers"] = [(b"X-Shared", b"pxmark"), (b"ACCEPT", b"text/pxaccept")]
         kw["proxy"] = httpcore.Proxy(f"{scheme}://{PROXY_HOST}:{port}", **pkw)
     return kw
 
@@ -116,7 +116,7 @@ MARKERS = {"callerBody": b"bodymark", "callerHeader": b"callermark", "proxyAuth"
 def caller_headers(case):
     h = [(b"Host", ORIGIN_HOST.encode()), (b"X-Caller", b"callermark")]
     if case.get("phdr") == "collide":
-        h.append((b"X-Shared", b"callermark2"))
+        h.append((b"x-shared", b"callermark2"))
     if case.get("body"):
         h.append((b"Content-Length", b"8"))
     return h
@@ -304,7 +304,7 @@ def abstract(case, net, result):
                 form = "absolute" if b" http://" in data.split(b"\r\n")[0] or b" https://" in data.split(b"\r\n")[0] or b" ws://" in data.split(b"\r\n")[0] else "origin"
                 proto = "h2" if data.startswith(b"PRI * HTTP/2.0") else "h1"
                 via = "proxy" if rec.host == PROXY_HOST else "origin"
-                ops.append({"op": "request", "proto": proto, "form": form, "via": via, "carries": carries(data), "tmo": tmo, "res": res})
+                ops.append({"op": "request", "proto": proto, "form": form, "via": via, "carries": carries(data), "dup": has_dup(data) if proto == "h1" else False, "tmo": tmo, "res": res})
                 requested = True
                 req_sid = rec.sid
                 req_bytes = data
@@ -363,6 +363,13 @@ def classify(case, rec, op, data, stage):
     return None
 
 
+def has_dup(data):
+    """Does an HTTP/1.1 head repeat a header name (case-insensitively)?"""
+    head = data.split(b"\r\n\r\n")[0]
+    names = [ln.split(b":", 1)[0].strip().lower() for ln in head.split(b"\r\n")[1:] if b":" in ln]
+    return len(names) != len(set(names))
+
+
 def write_details(case, what, data):
     """Content-level facts about a negotiation message, read with independent code."""
     port = {"http": 80, "https": 443, "ws": 80, "wss": 443}[case["scheme"]]
@@ -372,7 +379,7 @@ def write_details(case, what, data):
         hosts = [ln.split(b":", 1)[1].strip() for ln in data.split(b"\r\n")[1:] if ln.lower().startswith(b"host:")]
         want = b"%s:%d" % (ORIGIN_HOST.encode(), port)
         ok = target == want and hosts == [want]
-        return {"names": "origin" if ok else "other:" + target.decode("latin1"), "carries": carries(data)}
+        return {"names": "origin" if ok else "other:" + target.decode("latin1"), "carries": carries(data), "dup": has_dup(data)}
     if what == "socks-greet":
         methods = list(data[2 : 2 + data[1]]) if len(data) >= 2 and data[0] == 5 else None
         m = {(0,): "noauth", (2,): "userpass"}.get(tuple(methods or ()), "other:%r" % (methods,))
